@@ -806,10 +806,16 @@ func (h *History) consume(g *gochannel.GoChannel, i int, ch <-chan *message.Mess
 			return
 		case BPublishSideThenAck:
 			sm := message.NewMessage("side-"+id, []byte("payload-side-"+id))
-			sp := &SidePubRec{ID: "side-" + id, Topic: h.Prog.sideTopicOf(id), OwnCtx: (i+len(id)+count[id])%2 == 0}
-			if sp.OwnCtx {
+			variant := (i + len(id) + count[id]) % 3
+			sp := &SidePubRec{ID: "side-" + id, Topic: h.Prog.sideTopicOf(id), OwnCtx: variant >= 1}
+			switch variant {
+			case 1:
 				// a follow-up usually carries the context of the message it follows (tracing, deadlines)
 				sm.SetContext(m.Context())
+			case 2:
+				// ... or is the received message itself, passed on as it is: what the Pub/Sub is given is its own copy's
+				// business, the delivery stays the consumer's to settle
+				sm, sp.ID = m, id
 			}
 			sp.StartT = lib.Tick()
 			sp.Err = g.Publish(sp.Topic, sm)
@@ -820,6 +826,9 @@ func (h *History) consume(g *gochannel.GoChannel, i int, ch <-chan *message.Mess
 			}
 			h.SidePubs = append(h.SidePubs, sp)
 			h.mu.Unlock()
+			if variant == 2 && h.Prog.Blocking {
+				time.Sleep(300 * time.Microsecond) // still working on it: nobody else settles this delivery meanwhile
+			}
 			settle(true)
 		}
 		if spec.CancelAfter > 0 && total == spec.CancelAfter {
